@@ -1,10 +1,12 @@
 package codegen
 
 import (
+	gobuild "go/build"
 	goparser "go/parser"
 	gotoken "go/token"
 	"os"
 	"path/filepath"
+	"strings"
 )
 
 func (c *context) PreParseGo() bool {
@@ -21,6 +23,14 @@ func (c *context) PreParseGo() bool {
 			dirEntry.Name() != baseGenGo &&
 			dirEntry.Name() != lexerGenGo &&
 			dirEntry.Name() != parserGenGo {
+			// Test files may belong to the external test package, and files
+			// excluded by build constraints (//go:build ignore) to any package.
+			if strings.HasSuffix(dirEntry.Name(), "_test.go") {
+				continue
+			}
+			if match, err := gobuild.Default.MatchFile(c.Dir, dirEntry.Name()); err == nil && !match {
+				continue
+			}
 			oneSourceName = filepath.Join(c.Dir, dirEntry.Name())
 		}
 	}
